@@ -106,6 +106,23 @@ theorem chunk_framing_is_not_body (m : Msg) (b : Bytes) (hb : m.body = some b)
     subst this; simp at *
   · omega
 
+/-- Response content is the fully decoded body with its true size: for every framing the text is
+the message body (de-chunked), passed through the trusted gzip/flate when the message announces
+one of them (and is not a 204/206), and `size` is the length of exactly that text. -/
+theorem content_is_decoded_body_with_true_size (infl : Bytes → Bytes → Option Bytes) (m : Msg)
+    (b : Bytes) (r : Response) (hb : m.body = some b) (h : newResponse infl true m = some r) :
+    r.content.size = r.content.text.length ∧
+    (if compressOf m == gzipTok || compressOf m == deflateTok then infl (compressOf m) b = some r.content.text
+     else r.content.text = b) := by
+  have hc : captures noOpts m = true := by simp [captures, noOpts, hb]
+  unfold newResponse at h
+  simp only [if_true, decodeBody_snapshot infl noOpts m b hc hb, Option.map_eq_some_iff] at h
+  obtain ⟨c, ⟨t, ht, rfl⟩, rfl⟩ := h
+  refine ⟨rfl, ?_⟩
+  split
+  · rename_i hz; simpa [hz] using ht
+  · rename_i hz; simp [hz] at ht; exact ht.symm
+
 /-- Body capture follows the configured content-type options: prefix match on the lower-cased
 Content-Type, opt-in lists capture exactly the matching types, opt-out lists exactly the others;
 without capture nothing of the body is in the entry. -/
